@@ -167,6 +167,53 @@ func runC01(cfg *config) *Report {
 			rep.Notes = append(rep.Notes, "fileok evaluation failed: "+err.Error())
 		}
 	}
+	// the hypothesis of the end-to-end theorems (Props/C01Rec.lean, CanonFile) evaluated by the driver: on the
+	// files as read back (all must meet it: non-vacuity of C01_canonical_*), and on spoiled copies of the same
+	// files (leading blank, over-long value, negative number: none may meet it - the hypothesis is not trivial)
+	{
+		var ops []string
+		var want []bool
+		seen := map[string]bool{}
+		for i := range cases {
+			c := cases[i]
+			if c.werr != nil || c.rerr != "ok" || seen[c.rd] {
+				continue
+			}
+			seen[c.rd] = true
+			ops = append(ops, "canonfile\t"+c.rd)
+			want = append(want, true)
+			if sp := spoilDump(c.rd, len(ops)); sp != "" {
+				ops = append(ops, "canonfile\t"+sp)
+				want = append(want, false)
+			}
+		}
+		got, err := leanParallel(cfg.driver, ops, runtime.NumCPU())
+		if err == nil {
+			for j, g := range got {
+				why := g
+				if len(why) > 48 {
+					why = why[:48]
+				}
+				if want[j] {
+					rep.count("theorem-hypothesis-CanonFile:" + why)
+					if g != "ok" && len(rep.Notes) < 6 {
+						rep.Notes = append(rep.Notes, "CanonFile hypothesis not met by a file the implementation round-trips: "+g)
+					}
+				} else {
+					if g == "ok" {
+						rep.count("theorem-hypothesis-CanonFile:spoiled-file-accepted")
+						if len(rep.Notes) < 6 {
+							rep.Notes = append(rep.Notes, "CanonFile hypothesis met by a spoiled file: "+ops[j][:min(len(ops[j]), 600)])
+						}
+					} else {
+						rep.count("theorem-hypothesis-CanonFile:spoiled-file-refused")
+					}
+				}
+			}
+		} else {
+			rep.Notes = append(rep.Notes, "canonfile evaluation failed: "+err.Error())
+		}
+	}
 	probeFindings(cfg, rep, r)
 	for _, c := range cases {
 		rep.Evaluations++
